@@ -134,8 +134,13 @@ def program(draw):
                                            "blanks", "case-symbol", "case-directive"]), max_size=6))
     # the statements may form the body of a .repeat: every copy evaluates the same text at its own '.'
     nrep = draw(st.sampled_from([1, 1, 1, 2, 3]))
+    # a faulty definition nothing (or nothing that matters) refers to: it is evaluated at the very end of the build
+    unused = None
+    if draw(st.integers(0, 5)) == 0:
+        unused = {"fault": draw(st.sampled_from(["div0", "mod0", "negshift", "digit89", "fine"])), "dep_below": draw(st.booleans()),
+                  "use": draw(st.sampled_from(["none", "none", "cancel", "times0"])), "dep_first": draw(st.booleans())}
     return {"kind": "c05", "items": items, "consts": consts, "where": where, "chain": chain, "base": base, "ints": ints,
-            "rules": sorted(rules), "rep": nrep}
+            "rules": sorted(rules), "rep": nrep, "unused": unused}
 
 
 class Env(X.Env):
@@ -247,6 +252,28 @@ def build(case):
                           "imm": struct.pack("<HH", 0o012701, v & 0xFFFF), "index": struct.pack("<HH", 0o005062, v & 0xFFFF)}[ctx]
             info.append((ctx, e, v, None))
     body.append({"k": "label", "name": "lab1"})
+    un = case.get("unused")
+    if un:
+        z = ("sym", "zq")
+        f = un["fault"]
+        e = {"div0": ("bin", "/", ("num", 7), z), "mod0": ("bin", "%", ("num", 7), z), "negshift": ("bin", "<<", ("num", 1), ("bin", "-", z, ("num", 1))),
+             "digit89": ("bin", "+", z, ("raw", "19")), "fine": ("bin", "+", z, ("num", 17))}[f]
+        if un["dep_first"] and f in ("div0", "mod0"):
+            e = ("bin", "+", z, e)
+        udef = {"k": "assign", "name": "uq", "e": e}
+        zdef = {"k": "assign", "name": "zq", "e": ("num", 0)}
+        if un["dep_below"]:
+            pre.append(udef)
+            post.append(zdef)
+        else:
+            pre.append(zdef)
+            pre.append(udef)
+        if f != "fine":
+            errors.add({"div0": "arithmetic-error", "mod0": "arithmetic-error", "negshift": "arithmetic-error", "digit89": "invalid-number"}[f])
+        if un["use"] != "none":
+            ue = ("bin", "-", ("sym", "uq"), ("sym", "uq")) if un["use"] == "cancel" else ("bin", "*", ("num", 0), ("sym", "uq"))
+            body.append({"k": "data", "d": "word", "es": [ue]})
+            image += b"\0\0"
     text, _ = render.render_file(pre + body + post, style)
     return text, (None if errors else image), errors, info, sorted(style.used)
 
